@@ -3,6 +3,7 @@ mod engine;
 mod evm;
 mod observe;
 mod ops;
+mod par;
 mod props;
 
 use std::path::PathBuf;
@@ -32,6 +33,44 @@ fn main() {
         for p in props::all() {
             println!("{}", p.id());
         }
+        return;
+    }
+    if args[1] == "bless" {
+        let network = std::env::var("VERIF_NETWORK").unwrap_or_else(|_| "regtest".to_string());
+        driver::configure(&network);
+        props::c02::bless(&network);
+        driver::cleanup_scratch();
+        return;
+    }
+    if args[1] == "bench" {
+        driver::configure("regtest");
+        let threads: usize = args.get(2).and_then(|s| s.parse().ok()).unwrap_or(1);
+        let t0 = std::time::Instant::now();
+        std::thread::scope(|s| {
+            for _ in 0..threads {
+                s.spawn(|| {
+                    for _ in 0..20 {
+                        let t = std::time::Instant::now();
+                        let mut i = driver::Instance::fresh("bench");
+                        let o = t.elapsed();
+                        let t = std::time::Instant::now();
+                        i.call("brc20_initialise", serde_json::json!({"genesis_hash": format!("0x{}", "11".repeat(32)), "genesis_timestamp": 1, "genesis_height": 0}));
+                        let ini = t.elapsed();
+                        let t = std::time::Instant::now();
+                        for _ in 0..10 { i.call("brc20_mine", serde_json::json!([1, 1])); }
+                        let mine = t.elapsed();
+                        let t = std::time::Instant::now();
+                        i.call("brc20_commitToDatabase", serde_json::json!([]));
+                        let com = t.elapsed();
+                        let t = std::time::Instant::now();
+                        drop(i);
+                        let d = t.elapsed();
+                        if threads == 1 { println!("open {:?} init {:?} mine10 {:?} commit {:?} drop {:?}", o, ini, mine, com, d); }
+                    }
+                });
+            }
+        });
+        println!("threads {} total {:?}", threads, t0.elapsed());
         return;
     }
     if args.len() < 3 {
@@ -85,6 +124,12 @@ fn main() {
     };
     let ctx = Ctx { id: id.clone(), tier, seed, threads };
     let mut ev = Evidence::new(&ctx, prop.level());
+    if is_worker() {
+        // worker process of explore(): run the part named in VERIF_WORKER, write its result file, exit
+        prop.run(&ctx, &mut ev);
+        driver::cleanup_scratch();
+        return;
+    }
     let mut violations: Vec<(String, PathBuf, String)> = vec![];
     let mut known_lines: Vec<String> = vec![];
 
